@@ -162,7 +162,7 @@ Definition E_ASSERT := 6.      (* AssertionError *)
 Definition E_FUELX := 9.
 
 Definition getd (w : fw) (d : Z) : dev := match aget d (f_devs w) with Some x => x | None => blank_dev KPfc end.
-Definition setd (w : fw) (d : Z) (x : dev) : fw := w <| f_devs ::= aset d x |>.
+Definition setd (w : fw) (d : Z) (x : dev) : fw := w <| f_devs ::= arepl d x |>.
 Definition updd (w : fw) (d : Z) (f : dev -> dev) : fw := setd w d (f (getd w d)).
 Definition emitf (w : fw) (c : fcmd) : fw := w <| f_out ::= cons c |>.
 Definition failf (w : fw) (e : Z) : fw := if f_err w =? 0 then w <| f_err := e |> else w.
